@@ -9,7 +9,11 @@ package machine
 
 //@ sumfold total(s []FundingPart) = val(e.Amount)
 //@ sumfold sumBy(s []FundingPart, a AccountAddress) = e.Account == a ? val(e.Amount) : 0
-//@ define wfParts(s []FundingPart) bool = forall i int :: 0 <= i && i < len(s) ==> s[i].Amount != nil && val(s[i].Amount) >= 0
+//@ function wfParts(s []FundingPart) bool = forall i int :: 0 <= i && i < len(s) ==> s[i].Amount != nil && val(s[i].Amount) >= 0
+
+// amounts of well-formed parts are not negative, hence so is every per-account sum (by induction on the prefix length)
+//@ lemma sumByNonneg(s []FundingPart, k int, a AccountAddress) induction k :: {sumBy_upto(s, k, a)} (0 <= k && k <= len(s) && wfParts(s)) ==> sumBy_upto(s, k, a) >= 0
+//@ lemma totalNonneg(s []FundingPart, k int) induction k :: {total_upto(s, k)} (0 <= k && k <= len(s) && wfParts(s)) ==> total_upto(s, k) >= 0
 
 // ---- MonetaryInt (monetary.go) -----------------------------------------------------------------
 
